@@ -57,7 +57,7 @@ def run(ctx):
             "sec / reg cases: config sections of every form (string-keyed / untyped map / no map; each spelling of the type key absent, registered name, unknown name, non-string; a non-string key) through the real hooks, and Registry.New/NewFactory for an unregistered type or name; verdict section_ok_b / registered_b (C18_section_creation, C18_lookup_creation): wrong ones are the error result with nothing run",
             "conc cases: G goroutines released together create K products each (Registry.New / calls of one or of per-goroutine factories; through config.Decode + hooks and through a fresh plugin.Registry); the model Model/RegistryConc.v is replayed on the order of default invocations read off the observation, the verdict is conc_b (proved for every schedule: C18_concurrent_products); the driver keeps the model's function-valued state in arrays between steps",
             "set cases: the user's settings (keys of the section besides type: fields a, b, c and other keys) for every constructor shape (component / factory constructor; no config, Cfg by value / pointer, a config struct without fields by value / pointer; error result or not; default or not) and requested form (component, func() T, func() (T, error)) through core/register + the real hooks + config.Decode; model = run_case with the fill of parseConf (hook_oracle, Model/RegistryDecode.v), verdict = settings_accepted_b (a key that names no field of the constructor's config: error result, nothing constructed - C18_settings_rejected) / overlay (C18_settings_new_config, C18_settings_factory_config); the validator's verdict (max=1000 on field a) is computed by the driver",
-            "ovl cases: config structs made with reflect.StructOf from a generated description (int, map[string]int, []int, nested-struct fields; registered default holding non-empty maps / slices / nested structs, 1000 n added at its n-th invocation), constructor and default function by reflect.MakeFunc, registered through core/register, created through the real hooks + config.Decode as component / func() T / func() (T, error); prediction = the registry's rounds with dec_cfg (Model/RegistryOverlay.v) as the fill, verdict = ovl_accepted_b / cfg_agrees_b (C18_overlay_accepts, C18_overlay_config) computed by the driver per round on the implementation's records; the round structure (defaults / constructor calls / products per round, pairwise distinct) is checked by the driver as in the set cases",
+            "ovl cases: config structs made with reflect.StructOf from a generated description (int, map[string]int, []int, nested-struct fields; registered default holding non-empty maps / slices / nested structs, 1000 n added at its n-th invocation), constructor and default function by reflect.MakeFunc, registered through core/register, created through the real hooks + config.Decode as component / func() T / func() (T, error); prediction = the extracted registry model run_case with a fill that records which default invocation a config comes from (fails exactly when the settings are not acceptable), the content of a config from default n being dec_cfg (Model/RegistryOverlay.v) of that default and the section, verdict = ovl_accepted_b / cfg_agrees_b (C18_overlay_accepts, C18_overlay_config) computed by the driver per round on the implementation's records; the round structure (defaults / constructor calls / products per round, pairwise distinct) is checked by the driver as in the set cases",
             "nm cases: 1-4 spellings of a name (case, separators, digits, blanks, non-ASCII letters) registered behind a per-case prefix, each with its own constructor; a registered spelling, a near-twin or the empty name requested through the hooks and through plugin.New / NewFactory; prediction create_named, verdict named_spec_b (C18_name_lookup_exact, C18_named_creation); names travel as hex bytes",
             "ftype cases: plugin.FactoryPluginType / Registry.LookupFactory / Registry.NewFactory for 17 Go types (both factory forms, named ones, wrong arity / result kinds, non-func, forms of the error interface and of an unregistered interface) x registered or not x name; model is_factory_type / new_factory_request, verdict from factory_form (C18_factory_forms, C18_factory_request); reg setdefault: plugin.SetDefaultRegistry then package-level Register/New, judged by spec_b as a plain case",
             "extraction: ExtrOcamlBasic only; OCaml driver ocaml/C18/main.ml (parses the harness's event lines into the model's datatypes) + ocaml/common/conv.ml",
